@@ -163,14 +163,14 @@ def _literal_rendering(col, rule="C11.R6"):
             "the extra parameters of a builtin are all printed (repr), only a None 'not given' marker is omitted", "")
     cx = fnctx(repo, "BuiltinRef", "__repr__")
     col.add(rule, "BuiltinRef.__repr__#arg-printed", any(A.self_attr(n) == "_arg" for n in A.walk(cx.fn)), cx.loc(cx.fn), "the argument is printed", "")
-    cx = fnctx(repo, "ExprTask", "__repr__")
-    rets = [n.value for n in A.walk(cx.fn) if isinstance(n, ast.Return)]
-    ok = len(rets) == 1 and isinstance(rets[0], ast.JoinedStr)
-    if ok:
-        fv = [p for p in rets[0].values if isinstance(p, ast.FormattedValue)]
-        lits = "".join(p.value for p in rets[0].values if isinstance(p, ast.Constant))
-        ok = [A.self_attr(p.value) for p in fv] == ["taskid", "expr"] and lits.strip() == "="
-    col.add(rule, "ExprTask.__repr__#target=expr", ok, cx.loc(cx.fn), "an expression task prints as `target = expr`", "")
+    cx = sctx(repo, "ExprTask", "__repr__")
+    rets = cx.of_kind("return")
+    tps = [S.template(r.value) for r in rets]
+    if not rets or any(tp is None for tp in tps):
+        raise AnalysisError("ExprTask.__repr__: the returned text is not a recognisable string template (cannot decide)")
+    ok = all(tp[0].replace(" ", "") == "{}={}" and [h[1] for h in tp[1]] == [S.sattr("taskid"), S.sattr("expr")]
+             and all(h[0] in ("", "!s", None) for h in tp[1]) for tp in tps)
+    col.add(rule, "ExprTask.__repr__#target=expr", ok, cx.loc(cx.fn), "an expression task prints as `target = expr`", str(tps[0]) if tps else "")
 
 
 TEXT_OPS = {"replace", "translate", "sub", "subn", "split", "rsplit", "strip", "lstrip", "rstrip", "removeprefix", "removesuffix",
@@ -282,13 +282,19 @@ def _dump_load(col, rule="C11.R5"):
     col.add(rule, "Manager.copy_expr_from#loads-source-definitions-verbatim", src_ok and owa == ow, sx.loc(ev),
             "copy_expr_from loads exactly the source manager's printed definitions, forwarding overwrite", S.show(ev.term)[:200])
     okb, factb = False, S.show(ns) if ns is not None else "no namespace argument"
-    if ns is not None and ns[:1] == ("acc",) and ns[1] == "dict":
-        base = [c for c in ns[2] if c[0] == "many" and c[2] == S.sattr("containers") and not c[1]]
+    ns_alts = list(S.alts(ns)) if ns is not None else []
+    if ns_alts and all(a[:1] == ("acc",) and a[1] == "dict" for a in ns_alts):
+        # built once, or once per branch of `bindings if bindings else {}`: every alternative is containers + the bindings it was given
         bsrc = lambda t: all(a == binds or a in (("dict", ()), ("acc", "dict", ())) or (a[:1] == ("bool",) and binds in a[2]) for a in S.alts(t))   # noqa: E731
-        kv = [c for c in ns[2] if c[0] == "kv"]
-        kv_ok = len(kv) == 1 and not kv[0][1] and S.match(kv[0][2], S.fcall("str", ("key", S.V("b", bsrc)))) is not None \
-            and S.match(kv[0][3], ("val", S.V("b", bsrc))) is not None
-        okb = len(base) == 1 and kv_ok and len(ns[2]) == 2
+        okb, uses_binds = True, False
+        for one in ns_alts:
+            base = [c for c in one[2] if c[0] == "many" and c[2] == S.sattr("containers") and not c[1]]
+            kv = [c for c in one[2] if c[0] == "kv"]
+            kv_ok = len(kv) == 1 and not kv[0][1] and S.match(kv[0][2], S.fcall("str", ("key", S.V("b", bsrc)))) is not None \
+                and S.match(kv[0][3], ("val", S.V("b", bsrc))) is not None
+            okb = okb and len(base) == 1 and kv_ok and len(one[2]) == 2
+            uses_binds = uses_binds or (kv_ok and any(x == binds for x in S.subterms(kv[0][3])))
+        okb = okb and uses_binds
     col.add(rule, "Manager.copy_expr_from#bindings-in-namespace", okb, sx.loc(ev),
             "the evaluation namespace is the target manager's containers plus, for every binding, the printed label of the old "
             "container mapped to the new reference", factb)
